@@ -10,7 +10,7 @@ COQ_CASE_TYPE = "case05"
 SHARD = 60
 RULE = ("a connected, error-free object, then one request (or 2-5 requests in a row): request strings from a grammar (one letter, one letter + arguments, two letters, "
         "with surrounding blanks/tabs/newlines); reply streams built from the conforming reply with one disturbance per I/O position: SerialException at the write or at "
-        "any read, 24/25/26/27 empty reads before the reply (retry boundary), device error line (bare, and one that begins with the request's own name), wrong-name line, silence; every one of the 32 request methods with a "
+        "any read, 24/25/26/27 empty reads before the reply (retry boundary; an empty read is a timeout or a line of white space only), device error line (bare, and one that begins with the request's own name), wrong-name line, silence; every one of the 32 request methods with a "
         "fault at every I/O position of its nominal exchange (systematic), plus undisturbed sequences whose return values are judged against the device model; "
         "non-trivial = the call consumed at least two events")
 TRUSTED = ["pyserial behaviour = fake port (write/readline succeed, b'' on timeout, or SerialException)",
@@ -25,7 +25,7 @@ WS = ["", "", " ", "\t", " \r\n", "  "]
 def _expected(call, events):
     """what a conforming exchange must return (None = not judged), from the events alone"""
     m = call[0]
-    lines = [e[1] for e in events if isinstance(e, tuple)]
+    lines = [e[1] for e in events if isinstance(e, tuple) and e[1].strip()]          # lines of white space only are empty reads
     def payload(l): return l.split(",", 1)[1] if "," in l else ""
     try:
         if m == "command": return True
@@ -83,6 +83,10 @@ def generate(rng, tier):
                     if kind in ("errline", "wrongname", "nameerr", "nameerr2") and nom[i] == "E": continue          # those replace a reply, not a write
                     ev = nom[:i] + repl + nom[i + 1:]
                     add([c, S.random_call(rng)], [ev, S.nominal(("status",), rng)], "%s@%d/%s" % (kind, i, m))
+                if isinstance(nom[i], tuple):
+                    # a line of white space only (a bare line ending, blanks) arrives before the reply: it is an empty read like a timeout
+                    ev = nom[:i] + [("L", rng.choice(["", " ", "\t "]))] * rng.choice([1, 1, 2, 7]) + nom[i:]
+                    add([c, S.random_call(rng)], [ev, S.nominal(("status",), rng)], "blank@%d/%s" % (i, m))
     # 2. request grammar x retry boundary
     n = 120 if tier == "quick" else 8000
     for _ in range(n):
@@ -97,7 +101,10 @@ def generate(rng, tier):
         reply = nm + ("," + pay if isq and rng.random() < 0.85 else (pay if isq and rng.random() < 0.3 and not pay[0].isdigit() and pay[0] != "," else ""))
         exp = "SKIP"
         if k < 0.35:
-            ne = rng.choice([0, 1, 24, 25, 26, 27]); ev = ["E"] + ["E"] * ne + [("L", reply)]; fam = "empties%d" % ne
+            ne = rng.choice([0, 1, 24, 25, 26, 27]); fam = "empties%d" % ne
+            blanks = rng.choice([[], [], [""], ["", " ", "\t", " \t "]])            # empty reads: timeouts, or lines of white space only
+            if blanks: fam = "blank-" + fam
+            ev = ["E"] + [("L", rng.choice(blanks)) if (blanks and rng.random() < 0.6) else "E" for _ in range(ne)] + [("L", reply)]
             # the request waits through up to 25 empty reads: the reply is accepted iff at most 25 empties precede it
             exp = (_expected(call, ev) if not (body in ("R", "RB", "BL")) else "SKIP") if ne <= 25 else "FAIL"
         elif k < 0.5: ev = ["E", ("L", rng.choice(["!8 Err: unknown", nm + ",Err: 3", nm + ",Err: 3", nm + ",1,Err:", "Err:"]))]; fam = "errline"; exp = "FAIL"
